@@ -50,7 +50,7 @@ func c14genPlan(rt *rapid.T) c14plan {
 	for i := 0; i < n; i++ {
 		id++
 		c := rapid.IntRange(0, p.NClients-1).Draw(rt, fmt.Sprintf("c%d", i))
-		k := rapid.SampledFrom([]string{"getmsgs", "getmsgs", "biglist", "pm-victim", "pm-victim", "broadcast", "newsget", "userlist", "keepalive", "chat", "postboard", "clientinfo", "clientinfo", "invite", "fileinfo", "acct-stale-rename", "acct-create", "acct-create", "acct-delete", "invite-to-chat", "invite-to-chat", "chat-subject", "unknown-chat", "unknown-chat"}).Draw(rt, fmt.Sprintf("k%d", i))
+		k := rapid.SampledFrom([]string{"getmsgs", "getmsgs", "biglist", "pm-victim", "pm-victim", "broadcast", "newsget", "newslist", "userlist", "keepalive", "chat", "postboard", "clientinfo", "clientinfo", "invite", "fileinfo", "acct-stale-rename", "acct-create", "acct-create", "acct-delete", "invite-to-chat", "invite-to-chat", "chat-subject", "unknown-chat", "unknown-chat"}).Draw(rt, fmt.Sprintf("k%d", i))
 		t := hlref.Tran{ID: id}
 		big := func(label string) []byte {
 			return bytes.Repeat([]byte{byte('A' + i%26)}, rapid.SampledFrom([]int{100, 33000, 40000, 60000}).Draw(rt, label))
@@ -66,6 +66,8 @@ func c14genPlan(rt *rapid.T) c14plan {
 			t.Type, t.Fields = hlref.TranUserBroadcast, []hlref.Field{fld(hlref.FData, big(fmt.Sprintf("sz%d", i)))}
 		case "newsget":
 			t.Type, t.Fields = hlref.TranGetNewsArtData, []hlref.Field{fld(hlref.FNewsPath, p1("Seed")), fld(hlref.FNewsArtID, hlref.BE32(1)), sfld(hlref.FNewsArtDataFlav, "text/plain")}
+		case "newslist": // the article list of a category with 300 articles: one field that has grown past 64 KiB
+			t.Type, t.Fields = hlref.TranGetNewsArtNameList, []hlref.Field{fld(hlref.FNewsPath, p1("Many"))}
 		case "userlist":
 			t.Type = hlref.TranGetUserNameList
 		case "clientinfo": // a request about another connected user: the answer belongs to the requester
@@ -112,6 +114,13 @@ func c14genPlan(rt *rapid.T) c14plan {
 func c14options(p c14plan) hlsim.Options {
 	body := strings.Repeat("n", 60000)
 	news := fmt.Sprintf("Categories:\n    Seed:\n        Type: [0, 3]\n        Name: Seed\n        Articles:\n            1:\n                Title: big\n                Poster: p\n                Date: [7, 208, 0, 0, 0, 0, 0, 0]\n                PrevArt: [0, 0, 0, 0]\n                NextArt: [0, 0, 0, 0]\n                ParentArt: [0, 0, 0, 0]\n                FirstChildArtArt: [0, 0, 0, 0]\n                Data: %s\n        SubCats: {}\n", body)
+	// a category whose article list outgrew one field: 300 articles with 200-byte titles
+	var many strings.Builder
+	many.WriteString("    Many:\n        Type: [0, 3]\n        Name: Many\n        SubCats: {}\n        Articles:\n")
+	for i := 1; i <= 300; i++ {
+		fmt.Fprintf(&many, "            %d:\n                Title: %s\n                Poster: p\n                Date: [7, 208, 0, 0, 0, 0, 0, 0]\n                PrevArt: [0, 0, 0, %d]\n                NextArt: [0, 0, 0, 0]\n                ParentArt: [0, 0, 0, 0]\n                FirstChildArtArt: [0, 0, 0, 0]\n                Data: b\n", i, strings.Repeat("t", 200), (i-1)%256)
+	}
+	news += many.String()
 	seesAgreement := allAccess
 	seesAgreement.Clear(hlref.PrivNoAgreement)
 	return hlsim.Options{Agreement: strings.Repeat("a", max(p.Agreement, 1)), Board: strings.Repeat("b", p.Board), NewsYAML: news, BannerFile: p.Banner, Accounts: []hlsim.AccountSpec{acct("admin", "Admin", "adminpw", allAccess), acct("late", "Late", "latepw", seesAgreement)}}
